@@ -390,6 +390,140 @@ def Reachable (chk : Nat → Nat → Bool) (v0 : Nat) (s : State) : Prop :=
 
 end RA
 
+/-! ## Completed-call records (ghost layer: vocabulary for the C13 / C19 statements; not used by the driver)
+
+`Mach` is what the ghost layer sees of a machine; `Mach.gstep` runs the machine's own `step`
+unchanged and, next to it, keeps a step counter, the operation each thread has in progress and
+the list of completed calls (`CallRec`).  Nothing here is read by the programs. -/
+
+/-- What a completed call returned. -/
+inductive Res where
+  | snap (b v : Nat)     -- `snapshot` returned `(b, v)`
+  | bool (r : Bool)      -- `try_update` returned `r`; `update` returned (`r` = `advance_once`'s result)
+  | panic                -- an `assert!` failed
+  deriving DecidableEq, Repr
+
+/-- The result a thread at a terminal pc has just produced (`none`: idle or mid-operation). -/
+def Local.result (th : Local) : Option Res :=
+  match th.pc with
+  | .retSnap => some (.snap th.base th.bits)
+  | .retBool r => some (.bool r)
+  | .sPanic | .aPanic => some .panic
+  | _ => none
+
+/-- One completed call.  `vStart` / `vRet`: the caller's view of `sequence` (= index into
+`hist`) when the call began / returned (SC machine: the number of updates published so far);
+`tStart` / `tRet`: the global step numbers of its `.start` label and of its last step. -/
+structure CallRec where
+  tid : Nat
+  op : Op
+  vStart : Nat
+  vRet : Nat
+  tStart : Nat
+  tRet : Nat
+  res : Res
+  deriving DecidableEq, Repr
+
+/-- Whose step a label is. -/
+def actor : Label → Nat
+  | .run t _ => t
+  | .start t _ => t
+  | .sync t _ => t
+
+/-- A machine as the ghost layer sees it: its states and step function, and per thread the
+program state, the view of `sequence`, the recorded view at the start of the current call; the
+ghost history. -/
+structure Mach where
+  σ : Type
+  step : σ → Label → Option σ
+  loc : σ → Nat → Local
+  vseq : σ → Nat → Nat
+  startOf : σ → Nat → Nat
+  hist : σ → List (Nat × Nat)
+
+namespace Mach
+
+def run (M : Mach) (s : M.σ) : List Label → Option M.σ
+  | [] => some s
+  | l :: ls => match M.step s l with
+    | some s' => M.run s' ls
+    | none => none
+
+/-- Machine state plus call bookkeeping. -/
+structure GState (M : Mach) where
+  s : M.σ
+  clock : Nat                       -- number of steps taken so far
+  cur : Nat → Option (Op × Nat)     -- per thread: the operation in progress and the step number of its start
+  done : List CallRec               -- completed calls, most recent first
+
+def ginit (M : Mach) (s0 : M.σ) : M.GState := { s := s0, clock := 0, cur := fun _ => none, done := [] }
+
+/-- The bookkeeping after a step `l` that took the machine to `s'`. -/
+def gnext (M : Mach) (g : M.GState) (l : Label) (s' : M.σ) : M.GState :=
+  match l with
+  | .start t op => { s := s', clock := g.clock + 1, cur := upd g.cur t (some (op, g.clock)), done := g.done }
+  | .sync _ _ => { s := s', clock := g.clock + 1, cur := g.cur, done := g.done }
+  | .run t _ =>
+    match g.cur t, (M.loc s' t).result with
+    | some (op, t0), some r =>
+      { s := s', clock := g.clock + 1, cur := upd g.cur t none,
+        done := { tid := t, op := op, vStart := M.startOf s' t, vRet := M.vseq s' t,
+                  tStart := t0, tRet := g.clock, res := r } :: g.done }
+    | _, _ => { s := s', clock := g.clock + 1, cur := g.cur, done := g.done }
+
+/-- The machine's step, with bookkeeping. -/
+def gstep (M : Mach) (g : M.GState) (l : Label) : Option M.GState :=
+  match M.step g.s l with
+  | some s' => some (M.gnext g l s')
+  | none => none
+
+def grun (M : Mach) (g : M.GState) : List Label → Option M.GState
+  | [] => some g
+  | l :: ls => match M.gstep g l with
+    | some g' => M.grun g' ls
+    | none => none
+
+end Mach
+
+/-- The SC machine, for the ghost layer: every thread's "view of `sequence`" is the current value. -/
+@[reducible] def SC.mach (chk : Nat → Nat → Bool) : Mach where
+  σ := SC.State
+  step := SC.step chk
+  loc := fun s t => s.thr t
+  vseq := fun s _ => s.mem .seq
+  startOf := fun s t => s.start t
+  hist := fun s => s.hist
+
+/-- The release/acquire machine, for the ghost layer. -/
+@[reducible] def RA.mach (chk : Nat → Nat → Bool) : Mach where
+  σ := RA.State
+  step := RA.step chk
+  loc := fun s t => (s.thr t).loc
+  vseq := fun s t => (s.thr t).view .seq
+  startOf := fun s t => s.start t
+  hist := fun s => s.hist
+
+/-- States of the bookkeeping machine reachable from `AtomicBaseTime::new()`. -/
+def SC.GReachable (chk : Nat → Nat → Bool) (v0 : Nat) (g : (SC.mach chk).GState) : Prop :=
+  ∃ ls, (SC.mach chk).grun ((SC.mach chk).ginit (SC.init v0)) ls = some g
+
+def RA.GReachable (chk : Nat → Nat → Bool) (v0 : Nat) (g : (RA.mach chk).GState) : Prop :=
+  ∃ ls, (RA.mach chk).grun ((RA.mach chk).ginit (RA.init v0)) ls = some g
+
+/-! ## Sequential specification of the cell (what `nfs_voucher`'s model assumes of it) -/
+
+/-- `update` / `try_update` → `advance_once`, run alone on a cell whose current pair is `cur`:
+`none` = the `assert!` in `BaseTime::update` fires; otherwise the new current pair and the
+returned flag. -/
+def seqUpdate (chk : Nat → Nat → Bool) (cur : Nat × Nat) (b v : Nat) : Option ((Nat × Nat) × Bool) :=
+  if b < cur.1 then some (cur, false)
+  else if !chk b v then none
+  else some ((b, v), true)
+
+/-- `snapshot`, run alone: `none` = its `assert!` fires. -/
+def seqSnapshot (chk : Nat → Nat → Bool) (cur : Nat × Nat) : Option (Nat × Nat) :=
+  if chk cur.1 cur.2 then some cur else none
+
 /-- `get_base_time_unlocked(_now)` is `Ok(BASE_TIME.snapshot())` (nfs_voucher.rs). -/
 def getBaseTimeUnlockedOp : Op := .snapshot
 
